@@ -41,7 +41,7 @@ func ZZ_C16_M1_malformed_proof_no_panic() {
 // of (key, value) and for an absent key as non-membership, against the tree's own root; and the
 // same honest proofs do NOT verify the opposite statements (wrong value, wrong kind).
 //
-//zz:harness unwind=80 maxpaths=200000 timebudget=1500 panic=violation:M3.no-panic
+//zz:harness unwind=80 maxpaths=200000 timebudget=1500 panic=violation:M3.no-panic param.leaves@quick=1 param.leaves@thorough=2
 //zz:reach M3.done
 func ZZ_C16_M3_honest_proofs_verify() {
 	n := zzParam("leaves", 2)
@@ -75,7 +75,7 @@ func ZZ_C16_M3_honest_proofs_verify() {
 // for another key B, never proves the absence of a present B nor the membership of an absent B
 // (nor of a present B with another value).
 //
-//zz:harness unwind=80 maxpaths=200000 timebudget=1500 panic=violation:M2.no-panic
+//zz:harness unwind=80 maxpaths=200000 timebudget=1500 panic=violation:M2.no-panic param.leaves@quick=1 param.leaves@thorough=2
 //zz:reach M2a.done
 func ZZ_C16_M2a_foreign_honest_proof() {
 	n := zzParam("leaves", 2)
@@ -130,8 +130,13 @@ func zzAdversarialProof(sized bool) {
 	}
 	zzAssume(allSized == sized)
 	membership := zzBool("membership")
+	other := zzBool("otherValue")
+	if zzParam("fixquery", 0) == 1 {
+		// quick tier of M2c: the query of the recorded finding only (non-membership of the present key)
+		zzAssume(b == 0 && !membership && !other)
+	}
 	v := zzUserVal(b)
-	if zzBool("otherValue") {
+	if other {
 		v = []byte{'w'}
 	}
 	ok, _ := s.VerifyProof(zzUserKey(b), v, membership, root, proof)
@@ -151,10 +156,10 @@ func zzAdversarialProof(sized bool) {
 	zzReach(tag + "done")
 }
 
-//zz:harness unwind=80 maxpaths=600000 timebudget=3000 panic=ignore param.proofnodes@thorough=3
+//zz:harness tier=thorough unwind=80 maxpaths=600000 timebudget=6000 panic=ignore param.proofnodes@thorough=3
 //zz:reach M2b.done M2b.accepted
 func ZZ_C16_M2b_adversarial_proof_sized_values() { zzAdversarialProof(true) }
 
-//zz:harness unwind=80 maxpaths=600000 timebudget=3000 panic=ignore param.proofnodes@thorough=3
+//zz:harness unwind=80 maxpaths=600000 timebudget=6000 panic=ignore param.fixquery@quick=1
 //zz:reach M2c.unsized-values.done M2c.unsized-values.accepted
 func ZZ_C16_M2c_adversarial_proof_unsized_values() { zzAdversarialProof(false) }
